@@ -5,8 +5,8 @@ M: spec/sys/Delta.tla model-checked (commits on 2 branches interleaved with norm
    core (one branch list, one option set), fallback (branch list / option hash / shard
    threshold vary, the code abandons the delta build), ignore (an ignore file is in play).
 R: TLC prints one script per explored indexing transition (history of the representative
-   state + the run); a seeded sample of the longest ones (every prefix is covered by them) is
-   materialised as a real git repository and replayed through the real IndexGitRepo.
+   state + the run); a seeded sample of the longest ones (the prefixes are validated run by
+   run on the way) is materialised as a real git repository and replayed through IndexGitRepo.
 V: after every run the per-branch search views and the shard structure are recorded and
    validated by Trace_Delta.tla (property on the observation, structure against DeltaOps);
    seeded random histories beyond the model's bounds go the same way."""
@@ -37,8 +37,8 @@ def runs_of(sc):
 
 
 def select(scripts, n, rng, want_runs):
-    """the longest histories (every shorter one TLC printed is a prefix of some longer one it
-    printed for the same representative state), preferring those with delta runs late."""
+    """the longest histories (every run inside them is validated, so their prefixes are covered
+    on the way), preferring those with delta runs late."""
     key = lambda s: json.dumps(s["ops"], sort_keys=True)
     full = [s for s in scripts if len(runs_of(s)) >= want_runs]
     full.sort(key=key)
